@@ -28,6 +28,9 @@ class _Abort(BaseException):
     ``except Exception`` cannot swallow it)."""
 
 
+import os as _os
+
+_DEBUG = bool(_os.environ.get('SYMX_DEBUG'))
 ENGINE = None  # the active symbolic engine (one per process at a time)
 
 
@@ -835,6 +838,11 @@ class Engine:
         if z3.is_int_value(zexpr):
             return zexpr.as_long()
         self.stats.bump("concretisations")
+        if _DEBUG:
+            import traceback
+
+            print("CONCRETIZE", zexpr, file=sys.stderr)
+            traceback.print_stack(limit=8, file=sys.stderr)
         for _ in builtins.range(self.cap):
             r, m = self.check()
             if r == z3.unknown:
@@ -1170,6 +1178,8 @@ class Concrete:
         try:
             post = body(self)
         except _Abort:
+            if self.failed:
+                return dict(status="violated", failed=self.failed)
             return dict(status="precondition")
         except Exception as ex:
             import traceback
